@@ -451,7 +451,14 @@ FormatterToXML::outputDocTypeDecl(const XalanDOMChar*   name)
     accumName(s_doctypeHeaderStartString, 0, s_doctypeHeaderStartStringLength);
 
     accumName(name);
-      
+
+    // A system literal that contains a quotation mark must be
+    // delimited by apostrophes.
+    const XalanDOMChar  theQuote =
+        indexOf(m_doctypeSystem, XalanUnicode::charQuoteMark) < m_doctypeSystem.length() ?
+            XalanDOMChar(XalanUnicode::charApostrophe) :
+            XalanDOMChar(XalanUnicode::charQuoteMark);
+
     if (m_doctypePublic.empty() == false)
     {
         // " PUBLIC \""
@@ -459,16 +466,17 @@ FormatterToXML::outputDocTypeDecl(const XalanDOMChar*   name)
         accumName(m_doctypePublic);
         accumName(XalanUnicode::charQuoteMark);
         accumName(XalanUnicode::charSpace);
-        accumName(XalanUnicode::charQuoteMark);
+        accumName(theQuote);
     }
     else
     {
-        // " SYSTEM \""
-        accumName(s_doctypeHeaderSystemString, 0, s_doctypeHeaderSystemStringLength);
+        // " SYSTEM ", without the quotation mark that ends the string
+        accumName(s_doctypeHeaderSystemString, 0, s_doctypeHeaderSystemStringLength - 1);
+        accumName(theQuote);
     }
 
     accumName(m_doctypeSystem);
-    accumName(XalanUnicode::charQuoteMark);
+    accumName(theQuote);
     accumName(XalanUnicode::charGreaterThanSign);
 
     outputLineSep();
